@@ -17,19 +17,57 @@ Theorem C18_peerid_roundtrip : forall c, length c = 33%nat -> extract_pub (peeri
 Proof. exact extract_peerid. Qed.
 Print Assumptions C18_peerid_roundtrip.
 
-(* Coherence: for every private scalar (in particular all of [1, n-1], n < 2^256), the address
-   peers derive from the node's transport identity is the address the node signs with.  The curve
-   operations are arbitrary functions subject to the two stated premises (33-byte compressed form;
-   decompression inverts compression on public keys); keccak is an arbitrary function. *)
+(* Coherence.  A node is started (libp2p.New as written now: [node_peer_addr_now] consults [wiring_ok], computed
+   from the source text of New on every run - the key comes from opts.KeySigner.GetPrivateKey(), is padded by
+   util.PadKeyTo32Bytes(privKey.D), unmarshalled, handed to libp2p.Identity; the same opts.KeySigner signs the
+   handshake and peers bind with GetEthAddressFromPeerID) with a key signer that was given the scalar d.
+   The node's address has three sources, computed by different code:
+     - the address peers derive from the transport identity            [node_peer_addr_now ... d]
+     - the address the key signer reports (KeySigner.GetAddress)         [ks_addr d]
+     - the address verifiers recover from the key signer's signatures    [recover_addr d]
+   For every scalar below 2^256 (in particular all of [1, n-1], every count of leading zero bytes) the three are
+   one address, PROVIDED the key signer is bound to the scalar: it hands out d itself ([ks_priv d = d]), reports
+   the address of d's public key and its signatures recover to that address.  These three bindings, like the two
+   curve premises (33-byte compressed form; decompression inverts compression on public keys), are library /
+   key-signer facts outside the proof; the correspondence check tests each of them per case on all three key
+   signers of the repository with real handshake, bid and commitment signatures.  keccak is arbitrary. *)
 Theorem C18_coherent :
   forall (keccak : bytes -> bytes) (pub : N -> point) (compress : point -> bytes)
-         (decompress : bytes -> option point),
+         (decompress : bytes -> option point)
+         (ks_priv : N -> N) (ks_addr recover_addr : N -> bytes),
     (forall P, length (compress P) = 33%nat) ->
     (forall d, decompress (compress (pub d)) = Some (pub d)) ->
     forall d, d < 2 ^ 256 ->
-      node_peer_addr keccak pub compress decompress d = Some (signing_addr keccak pub d).
-Proof. exact coherent. Qed.
+      ks_priv d = d ->
+      ks_addr d = eth_addr keccak (pub d) ->
+      recover_addr d = eth_addr keccak (pub d) ->
+      node_peer_addr_now keccak pub compress decompress ks_priv d = Some (ks_addr d) /\
+      node_peer_addr_now keccak pub compress decompress ks_priv d = Some (recover_addr d) /\
+      ks_addr d = recover_addr d.
+Proof. exact coherent_sources. Qed.
 Print Assumptions C18_coherent.
+
+(* The bindings are not decoration: with the transport identity built from the scalar the signer hands out, a
+   signer whose reported (or signing) address is not the address of that scalar's public key yields a node whose
+   peers derive another address than the one it reports (signs with). *)
+Theorem C18_sources_differ_without_binding :
+  forall (keccak : bytes -> bytes) (pub : N -> point) (compress : point -> bytes)
+         (decompress : bytes -> option point)
+         (ks_priv : N -> N) (ks_addr recover_addr : N -> bytes),
+    (forall P, length (compress P) = 33%nat) ->
+    (forall d, decompress (compress (pub d)) = Some (pub d)) ->
+    forall d, d < 2 ^ 256 -> ks_priv d < 2 ^ 256 ->
+    (eth_addr keccak (pub (ks_priv d)) <> ks_addr d ->
+     node_peer_addr_now keccak pub compress decompress ks_priv d <> Some (ks_addr d)) /\
+    (eth_addr keccak (pub (ks_priv d)) <> recover_addr d ->
+     node_peer_addr_now keccak pub compress decompress ks_priv d <> Some (recover_addr d)).
+Proof. exact sources_differ_without_binding. Qed.
+Print Assumptions C18_sources_differ_without_binding.
+
+(* The source-level fact the statement above rests on, re-established on every run. *)
+Theorem C18_wiring_now : wiring_ok = true.
+Proof. exact wiring_now. Qed.
+Print Assumptions C18_wiring_now.
 
 (* What the padding is for: without it every key with a zero leading byte (d < 2^248) cannot
    start a node at all (the transport library insists on 32 bytes). *)
@@ -44,8 +82,10 @@ Print Assumptions C18_nopad_cannot_start.
    In model/Handshake.v the address of the authenticated transport identity is an oracle answer
    (addr_of_pid).  Below it is GetEthAddressFromPeerID of model/Identity.v applied to the transport
    identity of an honest node: private scalar d < 2^256, transport identity
-   host_id (pad32 (min_be d)) = peerid (compress (pub d)) (Compose_p2p.honest_pid), signing address
-   signing_addr d (Compose_p2p.honest_addr).  The curve operations are arbitrary functions subject to the
+   host_id (pad32 (min_be d)) = peerid (compress (pub d)) (Compose_p2p.honest_pid), and the address
+   pubkey_addr d of its public key (Compose_p2p.honest_addr) - by the binding premises of C18_coherent the
+   address the node reports and the one its signatures recover to (these statements were written with the
+   name "signing_addr" for [pubkey_addr]; only the name changed).  The curve operations are arbitrary functions subject to the
    two premises of C18_coherent; keccak is arbitrary.
    Non-vacuity: Compose_p2p.ex_honest_premises. *)
 From Coq Require Import ZArith.
@@ -67,10 +107,10 @@ Theorem C18_honest_node_passes_binding :
       Handshake.addr_of_pid o =
         Compose_p2p.pres_of (addr_of_peerid keccak decompress (Compose_p2p.honest_pid pub compress d)) ->
       forall role token sig,
-      Handshake.verify o sig (role ++ token) = Handshake.VOk true (signing_addr keccak pub d) ->
-      Handshake.addr_of_pid o = Handshake.POk (signing_addr keccak pub d) /\
-      ((role = Handshake.provider_string -> Handshake.registered o (signing_addr keccak pub d) = true) ->
-       Handshake.proves o role token sig (signing_addr keccak pub d)).
+      Handshake.verify o sig (role ++ token) = Handshake.VOk true (pubkey_addr keccak pub d) ->
+      Handshake.addr_of_pid o = Handshake.POk (pubkey_addr keccak pub d) /\
+      ((role = Handshake.provider_string -> Handshake.registered o (pubkey_addr keccak pub d) = true) ->
+       Handshake.proves o role token sig (pubkey_addr keccak pub d)).
 Proof.
   exact (fun keccak pub compress decompress H1 H2 d Hd =>
     conj (Compose_p2p.honest_host_id pub compress d Hd)
@@ -91,13 +131,13 @@ Theorem C18_honest_never_refused_for_identity :
       Handshake.addr_of_pid o =
         Compose_p2p.pres_of (addr_of_peerid keccak decompress (Compose_p2p.honest_pid pub compress d)) ->
       forall role token sig,
-      Handshake.verify o sig (role ++ token) = Handshake.VOk true (signing_addr keccak pub d) ->
+      Handshake.verify o sig (role ++ token) = Handshake.VOk true (pubkey_addr keccak pub d) ->
       forall cfg wfail f1 rest,
       Handshake.as_req f1 = Some (role, token, sig) ->
       forall cl, Handshake.res (Handshake.handle cfg o wfail (f1 :: rest)) = Handshake.Refuse cl ->
         cl <> Handshake.RSig /\ cl <> Handshake.RAddr /\ cl <> Handshake.RPid /\
         (cl = Handshake.RStake ->
-         role = Handshake.provider_string /\ Handshake.registered o (signing_addr keccak pub d) = false).
+         role = Handshake.provider_string /\ Handshake.registered o (pubkey_addr keccak pub d) = false).
 Proof. exact Compose_p2p.honest_never_refused_for_identity. Qed.
 Print Assumptions C18_honest_never_refused_for_identity.
 
@@ -112,7 +152,7 @@ Theorem C18_honest_never_blocked_for_ever :
       Handshake.addr_of_pid o =
         Compose_p2p.pres_of (addr_of_peerid keccak decompress (Compose_p2p.honest_pid pub compress d)) ->
       forall role token sig,
-      Handshake.verify o sig (role ++ token) = Handshake.VOk true (signing_addr keccak pub d) ->
+      Handshake.verify o sig (role ++ token) = Handshake.VOk true (pubkey_addr keccak pub d) ->
       forall cfg wfail f1 rest has_notifier add,
       Handshake.as_req f1 = Some (role, token, sig) ->
       ~ In (Handshake.EBlock 0%Z) (Handshake.inbound cfg o wfail (f1 :: rest) has_notifier add).
@@ -131,22 +171,25 @@ Theorem C18_honest_enrolled :
       Handshake.addr_of_pid o =
         Compose_p2p.pres_of (addr_of_peerid keccak decompress (Compose_p2p.honest_pid pub compress d)) ->
       forall role token sig,
-      Handshake.verify o sig (role ++ token) = Handshake.VOk true (signing_addr keccak pub d) ->
+      Handshake.verify o sig (role ++ token) = Handshake.VOk true (pubkey_addr keccak pub d) ->
       forall cfg wfail f1 f2 rest ea er,
       Handshake.as_req f1 = Some (role, token, sig) ->
-      (role = Handshake.provider_string -> Handshake.registered o (signing_addr keccak pub d) = true) ->
+      (role = Handshake.provider_string -> Handshake.registered o (pubkey_addr keccak pub d) = true) ->
       wfail 0%nat = false -> wfail 1%nat = false ->
       Handshake.as_resp f2 = Some (ea, er) -> Handshake.echo_is_own cfg ea er ->
       Handshake.res (Handshake.handle cfg o wfail (f1 :: f2 :: rest)) =
-        Handshake.Enrol (signing_addr keccak pub d) (Handshake.role_of_string role).
+        Handshake.Enrol (pubkey_addr keccak pub d) (Handshake.role_of_string role).
 Proof. exact Compose_p2p.honest_enrolled. Qed.
 Print Assumptions C18_honest_enrolled.
 
-(* C18 (used by C14_wf_from_handshake).  Two different peer ids with the same address under
-   GetEthAddressFromPeerID are two different compressed public keys whose points have the same
-   Keccak-derived address. *)
+(* C18 (used by C14_wf_from_handshake).  Two different CANONICAL peer ids (what peer.IDFromPublicKey answers for
+   a secp256k1 key: the ids of authenticated connections) with the same address under GetEthAddressFromPeerID
+   are two different compressed public keys whose points have the same Keccak-derived address.  The premise is
+   needed for the Go function, not for the model: ExtractPublicKey also accepts non-canonical encodings of one
+   key (65-byte uncompressed data, other field order), which [extract_pub] refuses. *)
 Theorem C18_identity_collision_is_key_collision :
   forall (keccak : bytes -> bytes) (decompress : bytes -> option point) p p' A,
+  canonical p -> canonical p' ->
   p <> p' ->
   addr_of_peerid keccak decompress p = Some A -> addr_of_peerid keccak decompress p' = Some A ->
   exists c c' P P', c <> c' /\ decompress c = Some P /\ decompress c' = Some P' /\
